@@ -220,6 +220,8 @@ def requested_vs_actual(cfg, fs, dev_blocks):
         have = bool(getattr(fs, word) & bit)
         if want and not have:
             bad.append("feature %s requested but not set" % name)
+        if name == "has_journal" and "-J" in cfg["opts"]:
+            continue                                              # -J asks for a journal: contradictory request, either outcome is fine
         if not want and have and name not in ("large_file",):     # large_file is set when needed
             if name == "resize_inode" or name == "sparse_super" or True:
                 bad.append("feature %s disabled on the command line but set" % name)
